@@ -45,7 +45,13 @@ def run_lp_check(pid, tier, seed, runs, owns=(), level='model_checking', rule=''
             rep.notes.append('%s: %s, %d behaviours exported, %d states, %.0fs' % (
                 r['label'], 'simulate' if sim else 'exhaustive BFS', res['exports'], res['distinct'], res['wall_s']))
         if post:
-            post(rep, pool)
+            try:
+                post(rep, pool)
+            except (Exception, SystemExit) as e:
+                # a failure of the second stage must not hide violations the first stage already found
+                if not rep.violations:
+                    raise
+                rep.notes.append('second stage not completed (%s: %s); reporting the violations found so far' % (type(e).__name__, str(e)[:200]))
     finally:
         pool.close()
     rep.assumptions = list(assumptions) or [
